@@ -804,6 +804,16 @@ func (ev *SpecEnv) call(n *Node) Val {
 		// typeid(T): run-time type constant of a Go type written as an identifier / selector
 		ty := ex.resolveType(n.Args[0].String(), ev.pkg)
 		return Val{T: c.typeConst(ty), S: sortType}
+	case "contents":
+		x := ev.eval(n.Args[0])
+		if x.S != sortSl {
+			specFail("contents() of a non-slice")
+		}
+		es := bvSort(8)
+		if x.Ty != nil {
+			es = c.sortFor(x.Ty.Underlying().(*types.Slice).Elem())
+		}
+		return Val{T: sx("select", ev.hget(c.elemHeap(es)), slArr(x.T)), S: arraySort(bvSort(64), es)}
 	case "arr", "off":
 		x := ev.eval(n.Args[0])
 		if name == "arr" {
@@ -905,6 +915,9 @@ func (ev *SpecEnv) applySpecFunc(sf *SpecFunc, n *Node) Val {
 		if t == "RType" {
 			return sortType, nil
 		}
+		if t == "bytes" {
+			return arraySort(bvSort(64), bvSort(8)), nil
+		}
 		ty := ex.resolveType(t, pkg)
 		return c.sortFor(ty), ty
 	}
@@ -947,5 +960,9 @@ func (ev *SpecEnv) applySpecFunc(sf *SpecFunc, n *Node) Val {
 		specFail("body of %s has sort %s, declared %s", sf.Name, r.S, rs)
 	}
 	r.Ty = rty
+	// name the expansion so that repeated uses share one definition (keeps queries small)
+	if len(r.T) > 60 && !strings.Contains(r.T, "q!") && r.K == nil {
+		r.T = ev.st.define("sf."+sf.Name, rs, r.T)
+	}
 	return r
 }
